@@ -88,8 +88,8 @@ def parse_file(path, rename=None):
     text = open(path, encoding='utf-8').read()
     # private fields that were merely renamed since the contracts were written (same struct, same type, one candidate):
     # the ghost accessors follow the new name
-    for old_name, new_name in (rename or {}).items():
-        text = re.sub(r'(\bself|\(self\))\.%s\b' % re.escape(old_name), r'\1.' + new_name, text)
+    if rename is not None:
+        text = rename(text)
     lines = text.split('\n')
 
     def flush():
